@@ -240,3 +240,22 @@ pub fn ints(w: u32, rng: &mut StdRng, nrand: usize) -> Vec<u64> {
     v.dedup();
     v
 }
+
+/// modular inverse of an odd u modulo 2^f (f <= 32)
+pub fn inv_mod_pow2(u: u64, f: u32) -> u64 {
+    let mut x: u64 = 1;
+    for _ in 0..6 {
+        x = x.wrapping_mul(2u64.wrapping_sub(u.wrapping_mul(x)));
+    }
+    x & mask(f)
+}
+
+/// "lone low bit" products: fractions u, v (f bits, both odd) with u*v = 1 (mod 2^f), so that
+/// (1 + u/2^f)(1 + v/2^f) = 1 + w/2^f + 2^-2f : a run of f-1 zeros and then a single 1 at the very
+/// bottom -- the only sticky information below bit f.  Returns (u, v, w) with w = u + v + (u*v >> f).
+pub fn lone_bit_pair(f: u32, rng: &mut StdRng) -> (u64, u64, u64) {
+    let u = (rng.gen::<u64>() & mask(f)) | 1;
+    let v = inv_mod_pow2(u, f);
+    let w = u + v + ((u * v) >> f);
+    (u, v, w)
+}
